@@ -4,14 +4,14 @@ From Coq Require Import ExtrOcamlBasic ZArith List String FMapPositive.
 From HexVerif Require Import WMap Isa SimModel AsmModel AsmLayout AsmSpec AsmStatements CliModel Loader.
 From HexVerif Require Import Vexp RtlSem TbModel.
 From HexVerif.gen Require RtlSv RtlV RtlVSynth RtlHex.
-From HexVerif Require Import XAst XSem IsaMon XCodegenExpr XCodegenStmt.
+From HexVerif Require Import XAst XSem IsaMon XCodegenExpr XCodegenStmt XCodegenProgram.
 From HexVerif Require Import XConstProp.
 From HexVerif Require XFront.
 Extraction Language OCaml.
 Separate Extraction WMap.rd WMap.wr WMap.zero WMap.empty WMap.load_words PositiveMap.elements
   Isa.step Isa.run Isa.boot Isa.words_of_bytes
   Vexp.eval RtlSv.design RtlV.design RtlVSynth.design RtlHex.design RtlSem.cycle RtlSem.outs RtlSem.wire RtlSem.getv
-  TbModel.run TbModel.power_on TbModel.Current TbModel.Legacy TbModel.loaded_words TbModel.set_tmem SimModel.io_is_console
+  TbModel.run TbModel.power_on TbModel.Current TbModel.Previous TbModel.Legacy TbModel.loaded_words TbModel.set_tmem SimModel.io_is_console
   TbModel.step_safe TbModel.wb_mon Isa.fetch SimModel.to_int
   SimModel.step SimModel.run SimModel.init SimModel.arch_of SimModel.trace_symbol SimModel.trace_prefix
   AsmModel.lex AsmModel.parse AsmLayout.assemble_directives AsmLayout.assemble AsmLayout.diag_location AsmLayout.codegen AsmLayout.emit_bin
@@ -19,6 +19,6 @@ Separate Extraction WMap.rd WMap.wr WMap.zero WMap.empty WMap.load_words Positiv
   AsmStatements.struct_listing Loader.load_file CliModel.hexasm_main CliModel.xcmp_main CliModel.hexsim_main CliModel.xrun_main
   AsmSpec.check_image AsmSpec.check_symtab AsmSpec.check_listing AsmSpec.decode AsmSpec.bytes_map
   XSem.run XSem.run_fuel XSem.default_fuel XSem.default_steps XSem.default_depth
-  IsaMon.accesses IsaMon.acc_ok IsaMon.state_ok IsaMon.mon_ok XCodegenExpr.cg XCodegenExpr.frame_venv XCodegenExpr.first_temp XCodegenStmt.cproc
+  IsaMon.accesses IsaMon.acc_ok IsaMon.state_ok IsaMon.mon_ok XCodegenExpr.cg XCodegenExpr.frame_venv XCodegenExpr.first_temp XCodegenStmt.cproc XCodegenProgram.model_compile
   XConstProp.tree XConstProp.tree_opt XConstProp.front XConstProp.repo_arith XConstProp.repo_rejects_nonconst_val XConstProp.gen_const
   XFront.lex XFront.front_located XFront.front XFront.diag_message.
